@@ -10,6 +10,14 @@ NOT_APPLICABLE = {
 
 # id -> (engine, level category, level text, level note, technique, design_ref)
 CHECKS = {
+    "C22": ("DES", "fault_enumeration",
+            "Two layers. (a) Every session of a seeded 2-5 peer sync network (real TopicSyncManager sessions talking to each other, optionally with latencies and a cut link) is checked against the lifecycle automaton SessionStarted SyncStarted Op* SyncFinished (LiveModeStarted Op*)? (SessionFinished | Failed), Failed from any state, exactly one terminal event once run() returned, nothing after it. (b) Per generated two-replica scenario a reference execution records the remote's transcript and the local sink operations; the real session is then re-run against a scripted remote once per fault point: stream closed after k messages, message k replaced by each unexpected variant, stream error item at k, sink error from sink operation k (poll_ready / start_send / poll_flush / poll_close counted separately), for every k, with and without live mode.",
+            "Store is MemStore; in (b) the remote is a script replaying a real remote's recorded messages. A run() that does not return within 600 simulated seconds is a hang.",
+            "deterministic simulation with fault enumeration: every transcript position and every sink operation as fault point, lifecycle automaton oracle", "§4 C22"),
+    "C23": ("DES", "exploration",
+            "Discrete-event simulation of 2-5 peers (line / star / ring / mesh), each with a real TopicSyncManager, ManagerEventStream consumer (ingesting through real ingest_operation) and live-mode TopicLogSync sessions over SimDuplex; operations are published at seeded peers and instants while copies travel over several paths, optionally one link is cut. Oracles on the transcripts (with global send / delivery sequence numbers): per session every operation at most once; never sent back over the session it arrived on; the manager's stream yields every operation at most once; while the graph stays connected every peer ends up holding every operation within 120 simulated seconds.",
+            "The topic manager's fan-out of locally published operations is done by the harness (ToSync::Payload to every session handle of the publisher). De-duplication window is the default 1024 (> operations per run).",
+            "deterministic simulation with fault injection: multi-path live forwarding under seeded latencies and connection loss", "§4 C23"),
     "C31": ("World", "exploration",
             "Network-world simulation of 3-5 replicas with real GroupCrdtState (StrongRemove resolver), unit and totally ordered conditions: members act concurrently while partitioned (create, add, remove, promote, demote, nested groups, weighted conflict scenarios such as the same level with and without a condition), messages travel through per-replica causal buffers with reorder, duplicate, partition / heal, and states occasionally take a CBOR round trip; replicas with equal processed sets, a CBOR-reloaded twin, a canonical replica built on a second thread (different hasher keys) and repeated queries on one replica must all report identical members / root_members with identical access.",
             "Causal delivery (dependencies first) is provided by the harness, as the stack above the crate guarantees. members() is not called when the harness computes more than 5000 walks through nesting cycles (reported as its own finding instead).",
